@@ -45,3 +45,16 @@ Theorem C01_best_is_closest : forall keyof reply self selfs_marked selfs_all tar
     In p (best s) \/
     (length (best s) = count /\ forall w, In w (best s) -> dist keyof target w <= dist keyof target p).
 Proof. exact lookup_best_is_closest. Qed.
+
+(* 5. unless the run was cut by a budget, no peer the lookup learned of (initial
+      candidates, or named in any reply) that is strictly closer than the farthest
+      returned node is left unqueried *)
+Theorem C01_complete : forall keyof reply self selfs_marked selfs_all target count init,
+  NoDup init -> (forall p, In p init -> ~ In p selfs_all) ->
+  incl selfs_marked selfs_all -> In self selfs_marked ->
+  let s := lookup keyof reply self selfs_marked selfs_all target count init in
+  budget_hit s = false ->
+  forall p, (In p init \/ exists q l, In q (sent s) /\ reply q = Some l /\ In p l) ->
+    In p (sent s) \/ In p selfs_all \/
+    (length (best s) = count /\ forall w, In w (best s) -> dist keyof target w <= dist keyof target p).
+Proof. exact lookup_complete. Qed.
